@@ -802,7 +802,7 @@ func subWorker(t *testing.T, shard, n int) {
 			}
 			resMu.Unlock()
 			done++
-			if done%2000 == 0 {
+			if done%250 == 0 {
 				snapshot(walPath(tag, shard) + ".partial")
 			}
 			return true
@@ -936,16 +936,22 @@ func runSub(run *ev.Run, deadline time.Time) {
 		if stuck {
 			reps = 5
 		}
+		var confirmLog []string
 		for i := 0; i < reps; i++ {
 			dead := false
-			run.RunWorkers(1, append(envBase, fmt.Sprintf("C17_SUB_TAG=confirm%d", i), fmt.Sprintf("C17_SUB_ONLY=%d", idx)), func(_ int, out string) {
+			// no deadline here: a confirmation run evaluates exactly one case
+			run.RunWorkers(1, []string{"GOMAXPROCS=2", fmt.Sprintf("C17_SUB_TAG=confirm%d", i), fmt.Sprintf("C17_SUB_ONLY=%d", idx)}, func(_ int, out string) {
 				m2, s2, st2 := crashSite(out)
 				if st2 == stuck && m2 == msg && s2 == site {
 					dead = true
+				} else {
+					confirmLog = append(confirmLog, fmt.Sprintf("run %d: stuck=%v msg=%q site=%q (want %q %q)\n%s", i, st2, m2, s2, msg, site, tailStr(out, 600)))
 				}
 			})
 			if dead {
 				died++
+			} else if len(confirmLog) <= i {
+				confirmLog = append(confirmLog, fmt.Sprintf("run %d: worker finished normally", i))
 			}
 		}
 		code, _ := strconv.ParseUint(strings.TrimPrefix(strings.SplitN(label, "/", 2)[0], "code="), 16, 64)
@@ -958,7 +964,7 @@ func runSub(run *ev.Run, deadline time.Time) {
 		case stuck:
 			run.Add("sub_stuck_not_reproduced", 1) // the documented guard: reported only if it never returns
 		default:
-			ev.Broken("sub-protocol worker died at case %d (%s) but the case alone does not reproduce it (%d/%d):\n%s", idx, label, died, reps, tailStr(cr.output, 2000))
+			ev.Broken("sub-protocol worker died at case %d (%s) but the case alone does not reproduce it (%d/%d):\n%s\n--- confirmation runs:\n%s", idx, label, died, reps, tailStr(cr.output, 1200), strings.Join(confirmLog, "\n"))
 		}
 		// continue the shard after the fatal case
 		restarts++
